@@ -215,7 +215,12 @@ impl R {
             R::Prefix(op, x) => format!("{} {}", op, operand(x)),
             R::Postfix(x, op) => format!("{} {}", operand(x), op),
             R::Infix(op, l, r) => {
-                format!("{} {} {}", operand(l), op, operand(r))
+                // `a = b += e`: assignment operators group right to left, so the chain is written flat
+                let right = match &**r {
+                    R::Infix(op2, ..) if is_assign(op) && is_assign(op2) => r.render_explicit(),
+                    _ => operand(r),
+                };
+                format!("{} {} {}", operand(l), op, right)
             }
             R::NotInfix(op, l, r) => format!("{} not {} {}", operand(l), op, operand(r)),
             R::Cond(c, a, b) => format!("{} ? {} : {}", operand(c), operand(a), operand(b)),
